@@ -111,6 +111,24 @@ pub fn check(bytes: &[u8], _ctx: &Ctx) -> Verdict {
     }
     let bounds: Vec<f64> = prefix.iter().map(|o| o.solved.total_bound).collect();
     let mut labels = vec![case.params_name, method_name(case.method)];
+    // a budget of zero admits no pass at all, whatever the threshold: nothing is drawn, the
+    // profile is the initial uniform one and no bound has been established
+    for (r, rname) in [(0.0, "zero"), (f64::INFINITY, "plus-inf"), (bounds[0], "first-bound")] {
+        let z = match run(0, r) {
+            Ok(o) => o,
+            Err(v) => return v,
+        };
+        let d = max_diff(&z.solved.prof, &crate::tree::uniform_profile(info)).0;
+        if z.last_pass != 0 || d > 1e-12 || z.solved.bounds.iter().any(|b| *b != f64::INFINITY) {
+            return Verdict::fail(
+                "C09/budget-exceeded/zero-budget",
+                format!(
+                    "{} {:?} budget 0 threshold {} ({}): last pass with a draw {}, bounds {:?}, distance from the uniform profile {}; a budget of zero must not run an iteration",
+                    method_name(case.method), case.params, r, rname, z.last_pass, z.solved.bounds, d
+                ),
+            );
+        }
+    }
     let mut nontrivial = false;
     for (kind, which) in case.picks.iter() {
         let bt = bounds[*which % bounds.len()];
@@ -290,7 +308,7 @@ pub fn prop() -> Prop {
         id: "C09",
         check,
         describe,
-        rule: "small generated games x {Full, Sampled, External} (sampled ones under a pure decision function, so single-threaded runs are bit-deterministic) x parameters (half vanilla) x budget N in 1..30 x 3-8 thresholds from {0, -1, NaN, +inf, b_t, next_up(b_t), next_down(b_t)} where b_t are the total bounds of the prefix runs solve(m, t, 0); oracle: solve(m, N, r) equals bitwise the prefix run with budget t* = first t with b_t < r (N if none); the returned bound is < r iff t* < N; no draw after the last pass of t*; one more run with a huge budget (u64::MAX, u64::MAX-1, 2^63, ...) and a threshold some prefix undercuts must equal that prefix bitwise; in half the cases two more runs with 2..8 threads and thresholds from {0, -1, NaN, +inf, mid-points between distinct bounds} must equal the one-thread prefix run within 1e-6 (only when the reference model's conditioning guard admits all N iterations). Non-trivial = 1 <= t* < N with the neighbouring prefix results distinct; distinct by (tree, method, parameters, N, thresholds).",
+        rule: "small generated games x {Full, Sampled, External} (sampled ones under a pure decision function, so single-threaded runs are bit-deterministic) x parameters (half vanilla) x budget N in 1..30 x 3-8 thresholds from {0, -1, NaN, +inf, b_t, next_up(b_t), next_down(b_t)} where b_t are the total bounds of the prefix runs solve(m, t, 0); oracle: solve(m, N, r) equals bitwise the prefix run with budget t* = first t with b_t < r (N if none); the returned bound is < r iff t* < N; no draw after the last pass of t*; solve(m, 0, r) for r in {0, +inf, b_1} draws nothing and returns the uniform profile with infinite bounds; one more run with a huge budget (u64::MAX, u64::MAX-1, 2^63, ...) and a threshold some prefix undercuts must equal that prefix bitwise; in half the cases two more runs with 2..8 threads and thresholds from {0, -1, NaN, +inf, mid-points between distinct bounds} must equal the one-thread prefix run within 1e-6 (only when the reference model's conditioning guard admits all N iterations). Non-trivial = 1 <= t* < N with the neighbouring prefix results distinct; distinct by (tree, method, parameters, N, thresholds).",
         max_len: 600,
         cases_quick: 30_000,
         cases_thorough: 500_000,
